@@ -244,6 +244,11 @@ func checkC05(p *Program, r *Report) {
 	c20MarshalAs(p, r, "C05.stream-fresh")
 	// ---- same input, same bytes, whatever was built before
 	checkBuildStateless(p, r, "C05.build-stateless")
+	// "answers every query of every kind ... statistics identically": what Stat reports is a function of
+	// the loaded message alone (rules shared with C18)
+	r.Explanation += " (stat) Stat maps its report from the level table that both NewSlimTrie and Unmarshal derive from the message in the same way (rules shared with C18)."
+	borrowRule(p, r, checkC18, "C18.mapping", "C05.stat-mapping")
+	borrowRule(p, r, checkC18, "C18.identity", "C05.stat-identity")
 }
 
 // mapRangeDiscipline checks one range-over-map loop. Returns ("", description)
